@@ -93,7 +93,40 @@ fn panic_site(sk: &str) -> String {
     }
 }
 
+/// Replace the fault list by the medium it produced: every damaged record becomes an explicit
+/// `M-GARBAGE` with the bytes the consumer actually saw. The trace then no longer depends on the
+/// record values, and the bytes themselves can be shrunk.
+fn materialize(p: &Plan) -> Option<Plan> {
+    use crate::plan::MFault;
+    if p.arm != "pipeline" || p.medium.is_empty() || p.write.err_at.is_some() {
+        return None;
+    }
+    if p.medium.iter().all(|f| matches!(f, MFault::Garbage { .. })) || p.medium.iter().any(|f| matches!(f, MFault::Tail { .. })) {
+        return None;
+    }
+    let (_, segs) = crate::engine::run_plan_collect(p);
+    if segs.is_empty() || segs.iter().any(|s| s.2) {
+        return None;
+    }
+    let mut q = p.clone();
+    q.medium = segs
+        .iter()
+        .enumerate()
+        .filter(|(_, s)| s.1)
+        .map(|(i, s)| MFault::Garbage { rec: i, bytes: s.0.clone(), forged: false })
+        .collect();
+    Some(q)
+}
+
 pub fn shrink(plan: &Plan, key: &Key, budget: usize) -> Plan {
+    let first = shrink_pass(plan, key, budget);
+    match materialize(&first) {
+        Some(m) if same_class(&m, key) => shrink_pass(&m, key, budget),
+        _ => first,
+    }
+}
+
+fn shrink_pass(plan: &Plan, key: &Key, budget: usize) -> Plan {
     let mut best = plan.clone();
     let mut spent = 0usize;
     let mut progress = true;
@@ -221,6 +254,23 @@ fn candidates(p: &Plan) -> Vec<Plan> {
                         MFault::Trunc { at } | MFault::Flip { at, .. } | MFault::Sub { at, .. } | MFault::Zero { at, .. } | MFault::Dup { at, .. } | MFault::Field { at, .. } => *at = na,
                         _ => {}
                     });
+                }
+            }
+            MFault::Garbage { bytes, .. } if !bytes.is_empty() && bytes.len() <= 24 => {
+                // small enough to try every single-byte removal and simplification
+                for k in 0..bytes.len() {
+                    push(&|c| {
+                        if let MFault::Garbage { bytes, .. } = &mut c.medium[i] {
+                            bytes.remove(k);
+                        }
+                    });
+                    if bytes[k] != 0 {
+                        push(&|c| {
+                            if let MFault::Garbage { bytes, .. } = &mut c.medium[i] {
+                                bytes[k] = 0;
+                            }
+                        });
+                    }
                 }
             }
             MFault::Garbage { bytes, .. } if bytes.len() > 1 => {
